@@ -186,11 +186,18 @@ def analyse_ref(ctx, r1, r2, fe, ref, functors, builders):
     prog = ctx.prog
 
     def decide(test, state):
-        return tri(test, ref)
+        lin = getattr(state, 'lin', state)
+        return tri(test, ref, lin)
 
-    def tri(t, ref):
+    def rtext(t, lin):
+        try:
+            return lin.text(t) if lin is not None else src(t)
+        except Exception:
+            return src(t)
+
+    def tri(t, ref, lin):
         if isinstance(t, ast.BoolOp):
-            vals = [tri(v, ref) for v in t.values]
+            vals = [tri(v, ref, lin) for v in t.values]
             if isinstance(t.op, ast.And):
                 if any(v is False for v in vals):
                     return False
@@ -199,19 +206,14 @@ def analyse_ref(ctx, r1, r2, fe, ref, functors, builders):
                 return True
             return False if all(v is False for v in vals) else None
         if isinstance(t, ast.UnaryOp) and isinstance(t.op, ast.Not):
-            v = tri(t.operand, ref)
+            v = tri(t.operand, ref, lin)
             return None if v is None else (not v)
-        if isinstance(t, ast.Compare) and len(t.ops) == 1 and isinstance(t.left, ast.Name) \
-                and isinstance(t.comparators[0], ast.Constant):
-            if t.left.id == 'phase_ref':
+        if isinstance(t, ast.Compare) and len(t.ops) == 1 and isinstance(t.comparators[0], ast.Constant):
+            left = rtext(t.left, lin)
+            if left == 'phase_ref':
                 eq = (t.comparators[0].value == ref)
                 return eq if isinstance(t.ops[0], ast.Eq) else (not eq) if isinstance(t.ops[0], ast.NotEq) else None
-            if t.left.id == 'single_phase':
-                return False
-        if isinstance(t, ast.Name):
-            if t.id in TRUTHY:
-                return True
-            if t.id == 'single_phase':
+            if left == 'self._locked_state':
                 return False
         if isinstance(t, ast.Call):
             s = src(t)
@@ -221,6 +223,12 @@ def analyse_ref(ctx, r1, r2, fe, ref, functors, builders):
                 return True
             if src(t.func) == 'any':
                 return True
+        r = rtext(t, lin)
+        # data assumed complete: every heat-capacity model, Tm, Tb, Hvap and Hvap(Tb) exist; the chemical is not phase-locked
+        if r in ('bool(Cn.s)', 'bool(Cn.l)', 'bool(Cn.g)', 'Hvap', 'Tb', 'Tm', 'Hvap(Tb)'):
+            return True
+        if r == 'self._locked_state':
+            return False
         return None
 
     paths, trunc = run_paths(fe.node, decide=decide, call_hook=call_hook, follow_except=False, max_paths=64)
@@ -323,9 +331,7 @@ def analyse_ref(ctx, r1, r2, fe, ref, functors, builders):
             raise AnalysisError('functor %s is not a single-expression functor' % finfo.name)
         return ps[0].ret
 
-    Tref = base_env.get('T_ref', Form.atom('T_ref'))
-    Pref = base_env.get('P_ref', Form.atom('P_ref'))
-    Href = base_env.get('H_ref', Form.atom('H_ref'))
+    Tref, Pref, Href = Form.atom('self.T_ref'), Form.atom('self.P_ref'), Form.atom('self.H_ref')
     S0 = Form.atom('S0')
     Tb, Tm = Form.atom('Tb'), Form.atom('Tm')
     Hvap_Tb = Form.atom('Hvap(Tb)')
